@@ -108,6 +108,17 @@ def run(tier):
         except Exception as exc:  # pylint: disable=broad-except
             chk.violation("total", dict(measure=measure, exception=type(exc).__name__), {"features": feat, "exception": repr(exc)[:300]}, "")
             continue
+        # the same holds on a machine object that has just run the pipeline WITH its validation step
+        try:
+            import pandora
+            _, _, m_used = dp.run_pipeline(*dp.make_datasets(prob), {"pipeline": {nm: dict(c) for nm, c in steps}})
+            l4, r4 = pandora.run(m_used, *dp.make_datasets(prob), {"pipeline": {nm: dict(c) for nm, c in steps_nv}})
+            if len(r4.data_vars) != 0:
+                chk.violation("right_empty_without_validation", {"relation": "no_validation_after_validation_run"},
+                              {"features": feat, "vars": list(r4.data_vars)},
+                              "right dataset not empty without validation step on a machine that ran a validation pipeline before")
+        except Exception as exc:  # pylint: disable=broad-except
+            chk.violation("total", dict(measure=measure, exception=type(exc).__name__), {"features": feat, "exception": repr(exc)[:300]}, "")
         if len(r3.data_vars) != 0:
             chk.violation("right_empty_without_validation", {"relation": "no_validation"}, {"features": feat, "vars": list(r3.data_vars)},
                           "right dataset not empty without validation step")
